@@ -562,6 +562,8 @@ class Check(DiffCheck):
     id = 'C06'
     # lockset engine (lib/lockset.py): rwlock.state only changes under its mutex; cvar enqueue with the mutex still held
     lockset_rules = {10, 11, 12, 13, 14, 15, 23}
+    # E4S (lib/e4s.py): controlled 2-vCPU schedule search with this property's oracle (preemption at every lock boundary)
+    e4s_props = {'C06'}
     needs_libphoton = True
     coq_dirs = ['Base', 'C04', 'Sched', 'E3', 'C06']
     coq_targets = ['C06/C06_Proofs.vo']
